@@ -1,125 +1,191 @@
-//! C02 obligations: the map-each iterator ([*] paths) yields elements in
-//! row-major order, and `compile_with` applies a comparison to the addressed
-//! value(s) with the documented absent-value behaviour.
+//! C02 obligations, kernel K4: the map-each iterator behind `[*]` paths
+//! (`MapEachIterator::{from_indexes, reset, next}`, `FieldIndexIterator`) yields
+//! the addressed elements in array order, several `[*]` flatten in row-major
+//! order, an element without the trailing `[n]` is skipped (it does not end the
+//! iteration), an empty / out-of-range container gives an empty result.
+//! Direct calls on the real iterator (no context, no compiled closure).
 use super::super::*;
-use crate::lhs_types::Array;
+use crate::lhs_types::verif_kani::common::{array_borrowed, array_owned};
 
-fn int_array<const N: usize>(xs: &[i64; N]) -> Array<'static> {
+fn ints<const N: usize>(xs: &[i64; N]) -> Vec<LhsValue<'static>> {
     let mut v = Vec::with_capacity(N);
     let mut i = 0;
     while i < N {
         v.push(LhsValue::Int(xs[i]));
         i += 1;
     }
-    Array::try_from_vec(Type::Int, v).unwrap()
+    v
+}
+
+fn int_array<const N: usize>(xs: &[i64; N]) -> LhsValue<'static> {
+    LhsValue::Array(array_owned(Type::Int, ints(xs)))
+}
+
+fn rows2(r0: LhsValue<'static>, r1: LhsValue<'static>) -> LhsValue<'static> {
+    let mut rows = Vec::with_capacity(2);
+    rows.push(r0);
+    rows.push(r1);
+    LhsValue::Array(array_owned(Type::Array(Type::Int.into()), rows))
+}
+
+fn rows3(r0: LhsValue<'static>, r1: LhsValue<'static>, r2: LhsValue<'static>) -> LhsValue<'static> {
+    let mut rows = Vec::with_capacity(3);
+    rows.push(r0);
+    rows.push(r1);
+    rows.push(r2);
+    LhsValue::Array(array_owned(Type::Array(Type::Int.into()), rows))
+}
+
+/// next item must be the Int `want`.
+fn expect_int(it: &mut MapEachIterator<'_, '_>, want: i64, msg: &'static str) {
+    match it.next() {
+        Some(LhsValue::Int(v)) => {
+            assert!(v == want, "{}", msg);
+        }
+        Some(other) => {
+            std::mem::forget(other);
+            assert!(false, "{}", msg);
+        }
+        None => {
+            assert!(false, "{}", msg);
+        }
+    }
+}
+
+fn expect_end(it: &mut MapEachIterator<'_, '_>, msg: &'static str) {
+    match it.next() {
+        None => {}
+        Some(other) => {
+            std::mem::forget(other);
+            assert!(false, "{}", msg);
+        }
+    }
 }
 
 /// `[*]` over an array of N ints: exactly the N elements, in array order.
-fn map_each_flat<const N: usize>() {
+/// OWNED: the value of a function call; otherwise the `as_ref()` view of a field value.
+fn map_each_flat<const N: usize, const OWNED: bool>() {
     let xs: [i64; N] = kani::any();
-    let val = LhsValue::Array(int_array(&xs));
+    let val = int_array(&xs);
     let idx = [FieldIndex::MapEach];
     let mut it = MapEachIterator::from_indexes(&idx);
-    it.reset(val);
+    if OWNED {
+        it.reset(int_array(&xs));
+    } else {
+        it.reset(val.as_ref());
+    }
     let mut k = 0;
     while k < N {
-        match it.next() {
-            Some(LhsValue::Int(v)) => {
-                assert!(v == xs[k], "[*] applies to every element in array order");
-            }
-            _ => {
-                assert!(false, "[*] yields one item per element");
-            }
-        }
+        expect_int(&mut it, xs[k], "[*] applies to every element in array order");
         k += 1;
     }
-    assert!(it.next().is_none(), "[*] yields nothing beyond the elements (empty container: nothing)");
+    expect_end(&mut it, "[*] yields nothing beyond the elements (empty container: nothing)");
+    kani::cover!(true);
     std::mem::forget(it);
+    std::mem::forget(val);
 }
 
 #[kani::proof]
 #[kani::unwind(4)]
 fn map_each_flat__array_order_n0() {
-    map_each_flat::<0>()
+    map_each_flat::<0, false>()
 }
 
 #[kani::proof]
 #[kani::unwind(6)]
 fn map_each_flat__array_order_n2() {
-    map_each_flat::<2>()
+    map_each_flat::<2, false>()
+}
+
+#[kani::proof]
+#[kani::unwind(6)]
+fn map_each_flat__array_order_owned_n2() {
+    map_each_flat::<2, true>()
 }
 
 /// `[*][*]` over {[a, b], [], [c]}: a, b, c - row-major, empty rows contribute nothing.
 #[kani::proof]
 #[kani::unwind(7)]
 fn map_each_nested__row_major() {
-    let a: i64 = kani::any();
-    let b: i64 = kani::any();
-    let c: i64 = kani::any();
-    let rows = vec![
-        LhsValue::Array(int_array(&[a, b])),
-        LhsValue::Array(int_array(&[])),
-        LhsValue::Array(int_array(&[c])),
-    ];
-    let val = LhsValue::Array(Array::try_from_vec(Type::Array(Type::Int.into()), rows).unwrap());
+    let (a, b, c): (i64, i64, i64) = kani::any();
+    let val = rows3(int_array(&[a, b]), int_array(&[]), int_array(&[c]));
     let idx = [FieldIndex::MapEach, FieldIndex::MapEach];
     let mut it = MapEachIterator::from_indexes(&idx);
-    it.reset(val);
-    assert!(matches!(it.next(), Some(LhsValue::Int(v)) if v == a), "several [*] flatten in row-major order");
-    assert!(matches!(it.next(), Some(LhsValue::Int(v)) if v == b));
-    assert!(matches!(it.next(), Some(LhsValue::Int(v)) if v == c));
-    assert!(it.next().is_none());
+    it.reset(val.as_ref());
+    expect_int(&mut it, a, "several [*] flatten in row-major order");
+    expect_int(&mut it, b, "several [*] flatten in row-major order");
+    expect_int(&mut it, c, "an empty row contributes nothing and does not end the iteration");
+    expect_end(&mut it, "nothing beyond the elements");
+    kani::cover!(true);
     std::mem::forget(it);
+    std::mem::forget(val);
 }
 
-/// `[i][*]` and `[*][j]` over {[a, b], [c]} with symbolic i, j.
+/// `[*][j]` over the ragged {[a], [b, c]} with symbolic j: rows WITHOUT element
+/// j are skipped, later rows still contribute ([*] in the middle of a path).
 #[kani::proof]
 #[kani::unwind(7)]
-fn map_each_mixed__index_then_each_and_each_then_index() {
-    let a: i64 = kani::any();
-    let b: i64 = kani::any();
-    let c: i64 = kani::any();
-    let mk = || {
-        LhsValue::Array(
-            Array::try_from_vec(
-                Type::Array(Type::Int.into()),
-                vec![LhsValue::Array(int_array(&[a, b])), LhsValue::Array(int_array(&[c]))],
-            )
-            .unwrap(),
-        )
-    };
-    // [i][*]
-    let i: u32 = kani::any();
-    let idx = [FieldIndex::ArrayIndex(i), FieldIndex::MapEach];
-    let mut it = MapEachIterator::from_indexes(&idx);
-    it.reset(mk());
-    match i {
-        0 => {
-            assert!(matches!(it.next(), Some(LhsValue::Int(v)) if v == a));
-            assert!(matches!(it.next(), Some(LhsValue::Int(v)) if v == b));
-        }
-        1 => {
-            assert!(matches!(it.next(), Some(LhsValue::Int(v)) if v == c));
-        }
-        _ => {}
-    }
-    assert!(it.next().is_none(), "an out-of-range index before [*] gives an empty result");
-    std::mem::forget(it);
-    // [*][j]
+fn map_each_then_index__ragged_rows_are_skipped() {
+    let (a, b, c): (i64, i64, i64) = kani::any();
+    let val = rows2(int_array(&[a]), int_array(&[b, c]));
     let j: u32 = kani::any();
     let idx = [FieldIndex::MapEach, FieldIndex::ArrayIndex(j)];
     let mut it = MapEachIterator::from_indexes(&idx);
-    it.reset(mk());
-    match j {
-        0 => {
-            assert!(matches!(it.next(), Some(LhsValue::Int(v)) if v == a));
-            assert!(matches!(it.next(), Some(LhsValue::Int(v)) if v == c));
-        }
-        1 => {
-            assert!(matches!(it.next(), Some(LhsValue::Int(v)) if v == b), "rows without element j are skipped");
-        }
-        _ => {}
+    it.reset(val.as_ref());
+    if j == 0 {
+        expect_int(&mut it, a, "[*][0]: element 0 of every row, in row order");
+        expect_int(&mut it, b, "[*][0]: element 0 of every row, in row order");
+    } else if j == 1 {
+        expect_int(&mut it, c, "a row without element j is skipped; later rows still contribute");
     }
-    assert!(it.next().is_none());
+    expect_end(&mut it, "nothing else");
+    kani::cover!(j == 1, "first row lacks element j");
+    kani::cover!(j == 2, "no row has element j");
+    kani::cover!(j == u32::MAX);
     std::mem::forget(it);
+    std::mem::forget(val);
+}
+
+/// `[i][*]` over {[a, b], [c]} with symbolic i: the elements of row i; an
+/// out-of-range i gives an empty result.
+#[kani::proof]
+#[kani::unwind(7)]
+fn index_then_map_each__row_elements_or_empty() {
+    let (a, b, c): (i64, i64, i64) = kani::any();
+    let val = rows2(int_array(&[a, b]), int_array(&[c]));
+    let i: u32 = kani::any();
+    let idx = [FieldIndex::ArrayIndex(i), FieldIndex::MapEach];
+    let mut it = MapEachIterator::from_indexes(&idx);
+    it.reset(val.as_ref());
+    if i == 0 {
+        expect_int(&mut it, a, "[0][*]: the elements of row 0 in order");
+        expect_int(&mut it, b, "[0][*]: the elements of row 0 in order");
+    } else if i == 1 {
+        expect_int(&mut it, c, "[1][*]: the elements of row 1");
+    }
+    expect_end(&mut it, "an out-of-range index before [*] gives an empty result");
+    kani::cover!(i == 2, "index == len");
+    kani::cover!(i == 1);
+    std::mem::forget(it);
+    std::mem::forget(val);
+}
+
+/// `reset` starts a fresh traversal: after a partial traversal of one value the
+/// iterator yields exactly the elements of the next value.
+#[kani::proof]
+#[kani::unwind(6)]
+fn map_each_reset__fresh_traversal() {
+    let (a, b, c): (i64, i64, i64) = kani::any();
+    let v1 = int_array(&[a, b]);
+    let v2 = int_array(&[c]);
+    let idx = [FieldIndex::MapEach];
+    let mut it = MapEachIterator::from_indexes(&idx);
+    it.reset(v1.as_ref());
+    expect_int(&mut it, a, "first element");
+    it.reset(v2.as_ref());
+    expect_int(&mut it, c, "after reset: the elements of the new value only");
+    expect_end(&mut it, "after reset: the elements of the new value only");
+    kani::cover!(true);
+    std::mem::forget(it);
+    std::mem::forget((v1, v2));
 }
